@@ -20,6 +20,7 @@ var S1 = []string{
 	// range boundaries of the letter tests and one multi-byte rune whose low byte aliases a quote
 	// (U+0127 -> 0x27): a rune-to-byte truncation makes it look like the delimiter
 	"z", "Z", "\u0127",
+	"\xef\xbb\xbf", // UTF-8 byte-order mark: an input "normalisation" that strips it changes which string is judged
 }
 
 // S1core — the 30 most state-changing SQL bytes, for one level deeper.
@@ -35,6 +36,7 @@ var S2 = []string{
 	"q'(", ")'", "q'\xe9", "\xe9'", "nq'[", "]'", "n'", "N'", "e'", "u&'", "x'", "b'", "0x", "0b", "1e", "1e+", "1.", "1f", ".",
 	"@@", "@", "\\N", "\\'", "''", "<=>", "::", ":=", "||", "sp_password", "\n", "(", ")", ",", ";", "=", "-", "+",
 	"[", "]", "{", "}", "or", "union", "select",
+	"\xef\xbb\xbf", "\u0250", "\u017f", // BOM; runes whose upper case is longer (3 bytes) / is ASCII 'S'
 }
 
 // S3 — SQL token classes for the folder: one or two single-token fragments per token class
@@ -43,7 +45,7 @@ var S3 = []string{
 	"1 ", "foo ", "'s' ", "@v ", "+ ", "- ", "! ", "~ ", "!! ", "not ", "* ", "= ", ":: ", "and ", "or ",
 	"union ", "all ", "select ", "group ", "by ", "insert ", "into ", "in ", "like ", "user ", "database ", "sleep ",
 	"if ", "int ", "collate ", "a_b ", "( ", ") ", "{ ", "} ", ", ", "; ", ". ", ": ", "\\ ", "? ", "`` ", "`if` ",
-	"/**/ ", "/*!*/ ", "# ", "-- \n", "--x\n", "'' ", "\" ", "' ",
+	"/**/ ", "/*!*/ ", "# ", "-- \n", "--x\n", "'' ", "\" ", "' ", "` ", "--x/* ",
 }
 
 // S3core — the token classes that drive most folding rules, for deeper (6-7 token) searches.
@@ -60,6 +62,7 @@ var H1 = []string{
 	// byte aliases '=' (U+043D) and '<' (U+013C): a rune-to-byte truncation turns them into markup
 	"z", "\u043d", "\u013c",
 	"\\", // not special in HTML: a change that starts treating it as an escape must be visible
+	"\xef\xbb\xbf", // UTF-8 byte-order mark
 }
 
 // H1core — 20 bytes for one level deeper.
@@ -75,6 +78,7 @@ var H2 = []string{
 	"[if", "xml", "import", "entity",
 	"\u043d", "\u013c", // runes whose low byte aliases '=' / '<'
 	"<![cdata[", "&#x6a", "\\", // lower-case CDATA is NOT a CDATA section; unterminated hex reference; backslash
+	"\xef\xbb\xbf", "folder", // BOM; a URL attribute documented as "only on A tags"
 }
 
 // Fixtures returns every --INPUT-- of repo/tests/*.txt plus literal payloads of the Go tests.
@@ -191,4 +195,112 @@ func RepoDir() string {
 		return r
 	}
 	return "/repo"
+}
+
+// S3lit — the literal words the folder / whitelist compare values against and the case-foldable
+// lexical prefix forms, as single-token fragments (plus a few operators to combine them).
+var S3lit = []string{
+	"1 ", "foo ", "'s' ", "or ", "; ", "( ", ") ", ", ", "= ", "select ", "union ", "@", "` ",
+	"user ", "user_id ", "user_name ", "database ", "password ", "current_user ", "current_date ", "current_time ",
+	"current_timestamp ", "localtime ", "localtimestamp ", "in ", "not ", "like ", "into ", "outfile ", "dumpfile ", "if ", "collate ", "a_b ",
+	"u&'s' ", "n's' ", "e's' ", "x'1f' ", "b'01' ", "0x1f ", "0b01 ", "1e5 ", "1.5d ", "q'(s)' ", "nq'[s]' ", "$a$s$a$ ", "\\N ", "--x/* ",
+}
+
+// SQLPrefixes put the scanner / the context cascade into a non-initial situation (an open quote
+// after an invalid high byte, a '#' or '--x' seen inside a quote, both quote kinds present ...).
+var SQLPrefixes = []string{"\xe9' ", "\xff\" ", "1' ", "a\" ", "\\' ", "1'/**/", ")' ", "x' # ", "x' --y ", "x # ", "x\" # ", "x' #\" ", "x\" #' ", "\xef\xbb\xbf"}
+
+// HTMLPrefixes put the tokenizer into a non-initial state (inside an end tag, after a quoted value,
+// after a self-closing slash, inside an attribute list ...).
+var HTMLPrefixes = []string{"</a ", "</a b=\"x\"", "</a b='x' ", "<a b=\"x\"", "<a b=x ", "<a/", "</a/", "<a b", "</a b", "<!--x-->", "</>", "</a>",
+	"</a x='", "</a x=\"", "<a x=`", "</a b=x", "\xef\xbb\xbf"}
+
+func rep(u string, k int) string { return strings.Repeat(u, k) }
+
+// LenSQL — token-length boundary family: single tokens of every class with lengths 1..40 and pairs
+// of word-like tokens with every length combination up to 33 (the 31/32-byte value clip, the merge
+// size guard and fixed-size buffers all sit there).
+func LenSQL() []string {
+	var out []string
+	single := []func(k int) string{
+		func(k int) string { return rep("a", k) },
+		func(k int) string { return rep("1", k) },
+		func(k int) string { return rep("ɐ", k) }, // upper-cases to a 3-byte rune: keys grow
+		func(k int) string { return rep("ſ", k) }, // upper-cases to ASCII 'S': keys shrink
+		func(k int) string { return "'" + rep("a", k) + "'" },
+		func(k int) string { return "@" + rep("a", k) },
+		func(k int) string { return "`" + rep("a", k) + "`" },
+		func(k int) string { return "[" + rep("a", k) + "]" },
+		func(k int) string { return "/*" + rep("a", k) + "*/" },
+		func(k int) string { return "--" + rep("a", k) },
+		func(k int) string { return "0x" + rep("f", k) },
+		func(k int) string { return rep("a", k) + ".b" },
+		func(k int) string { return "select" + rep("a", k) },
+		func(k int) string { return rep("a", k) + "`b`" },
+		func(k int) string { return rep("1", k) + "/*x*/" },
+		func(k int) string { return "$a$" + rep("b", k) + "$a$" },
+	}
+	tails := []string{"", " or 1", "/*x*/", " --"}
+	for _, g := range single {
+		for k := 1; k <= 40; k++ {
+			for _, t := range tails {
+				out = append(out, g(k)+t)
+			}
+		}
+	}
+	wordlike := []func(k int) string{
+		func(k int) string { return rep("a", k) },
+		func(k int) string { return rep("ɐ", (k+1)/2) },
+		func(k int) string { return "`" + rep("a", k-1) + "`" },
+		func(k int) string { return "union"[:min(k, 5)] + rep("a", max(0, k-5)) },
+	}
+	for _, g1 := range wordlike {
+		for _, g2 := range wordlike {
+			for i := 1; i <= 33; i++ {
+				for j := 1; j <= 33; j++ {
+					if i+j < 28 || i+j > 36 {
+						continue // the interesting sums sit around the 31/32 boundary
+					}
+					out = append(out, g1(i)+" "+g2(j), "1 "+g1(i)+" "+g2(j)+" 1")
+				}
+			}
+		}
+	}
+	return out
+}
+
+// LenHTML — name-length / NUL-padding / leading-junk boundary family for the XSS side.
+func LenHTML(events []string) []string {
+	var out []string
+	names := []string{"script", "iframe", "frameset", "xml", "svt"}
+	attrs := []string{"onclick", "href", "style", "xmlns", "by", "attributename"}
+	longest := ""
+	for _, e := range events {
+		if len(e) > len(longest) {
+			longest = e
+		}
+	}
+	if longest != "" {
+		attrs = append(attrs, "on"+strings.ToLower(longest))
+	}
+	pad := func(n string, k int) string { m := len(n) / 2; return n[:m] + rep("\x00", k) + n[m:] }
+	for k := 0; k <= 64; k++ {
+		for _, n := range names {
+			out = append(out, "<"+pad(n, k)+">", "<"+pad(n, k)+" x=1>")
+		}
+		for _, a := range attrs {
+			v := "=javascript:alert(1)"
+			if a == "attributename" {
+				v = "=onclick"
+			}
+			out = append(out, "<a "+pad(a, k)+v+">", pad(a, k)+v)
+		}
+	}
+	for _, k := range []int{0, 1, 2, 3, 250, 251, 252, 253, 254, 255, 256, 257, 258, 259, 260, 300, 1000} {
+		for _, junk := range []string{" ", "\x01", "\x7f", "&#9;", "&#0;"} {
+			out = append(out, "<a href=\""+rep(junk, k)+"javascript:alert(1)\">", "<a href='"+rep(junk, k)+"data:x'>")
+		}
+		out = append(out, "<a href=\"j"+rep("\x00", k)+"avascript:x\">", "<a href=\"&#"+rep("0", k)+"106;avascript:x\">")
+	}
+	return out
 }
